@@ -55,6 +55,66 @@ theorem link_then_walk_non_ext (e : Exts) (n : Nat) (_hn : isIpv6ExtHeaderValue 
     (e.setNextHeaders n).1.nextHeader (e.setNextHeaders n).2 = .ok n :=
   link_walk_all e _ n _ rfl
 
+/-- Decoding what `write` emitted (followed by any `tail`) gives back the same struct, the number
+    the walk ends in, and the untouched tail -- for EVERY chain order `write` accepts, under the
+    type invariants of the stored headers, when the final number is not one of the five numbers
+    the decoder itself consumes (otherwise it would go on decoding `tail`). -/
+theorem write_decode (e : Exts) (hwf : e.WF) (first : Nat) (out : Bytes) (last : Nat) (tail : Bytes)
+    (hw : e.write first = (out, .ok ()))
+    (hn : e.nextHeader first = .ok last)
+    (hl : isWalked last = false) :
+    Exts.fromSlice first (out ++ tail) = .ok (e, last, tail) :=
+  write_decode' e hwf first out last tail hw hn hl
+
+/-- the same for a final number that is not an IPv6 extension header number (property text). -/
+theorem write_decode_non_ext (e : Exts) (hwf : e.WF) (first : Nat) (out : Bytes) (last : Nat) (tail : Bytes)
+    (hw : e.write first = (out, .ok ()))
+    (hn : e.nextHeader first = .ok last)
+    (hl : isIpv6ExtHeaderValue last = false) :
+    Exts.fromSlice first (out ++ tail) = .ok (e, last, tail) := by
+  apply write_decode' e hwf first out last tail hw hn
+  simp [isIpv6ExtHeaderValue, isWalked] at hl ⊢
+  omega
+
+/-- No header is silently dropped: if the walk succeeds with `n`, the present headers can be
+    arranged (each exactly once: a permutation of the present headers) into a chain that is a
+    declarative walk (Spec) from `first` to `n`, and `write` emits exactly that chain. -/
+theorem walk_ok_is_linked_permutation (e : Exts) (first n : Nat) (h : e.nextHeader first = .ok n) :
+    ∃ chain, chain.Perm e.rfcChain ∧ Walk first chain n ∧ e.write first = (serialise chain, .ok ()) :=
+  walk_ok_chain e first n h
+
+/-- Inconsistent chains are errors of both walkers:
+    (1) a present hop-by-hop header with a first number other than 0 gives `HopByHopNotAtStart`
+        or `ExtNotReferenced(0)`;
+    (2) a present header of kind `k` whose number is neither the first number nor the
+        `next_header` of any present header makes `next_header` and `write` return the same
+        error value. -/
+theorem inconsistent_is_error (e : Exts) (first : Nat) :
+    (∀ hd, e.hopByHopOptions = some hd → first ≠ 0 →
+      e.nextHeader first = .error (.err .hopByHopNotAtStart) ∨
+      e.nextHeader first = .error (.err (.extNotReferenced 0))) ∧
+    (∀ k hd, e.hdr k = some hd → first ≠ k.ipNumber →
+      (∀ k' hd', e.hdr k' = some hd' → hd'.next ≠ k.ipNumber) →
+      ∃ w, e.nextHeader first = .error (.err w) ∧ (e.write first).2 = .error (.err w)) := by
+  refine ⟨fun hd hh hf => hop_not_first_is_error e first hd hh hf, fun k hd hk h1 h2 => ?_⟩
+  obtain ⟨w, hw⟩ := unreferenced_is_error' e first k hd hk h1 h2
+  exact ⟨w, hw, by rw [write_snd_eq, hw]; rfl⟩
+
+/-- an error names a header that is present: `ExtNotReferenced(m)` only if a header with number `m`
+    is stored in the struct, `HopByHopNotAtStart` only if a hop-by-hop header is stored and the
+    first number is not 0. -/
+theorem error_names_present_header (e : Exts) (first : Nat) :
+    (∀ m, e.nextHeader first = .error (.err (.extNotReferenced m)) →
+      ∃ k hd, e.hdr k = some hd ∧ k.ipNumber = m) ∧
+    (e.nextHeader first = .error (.err .hopByHopNotAtStart) →
+      e.hopByHopOptions.isSome = true ∧ first ≠ 0) :=
+  ⟨fun m h => error_names_present' e first m h, fun h => hopByHopNotAtStart_means' e first h⟩
+
+/-- `from_slice` never reaches the `unwrap()` in `to_header` (any first number, any bytes). -/
+theorem from_slice_never_panics (first : Nat) (slice : Bytes) :
+    Exts.fromSlice first slice ≠ .error .panic :=
+  fromSlice_no_panic first slice
+
 /-! ## Ipv4Extensions (single authentication header) -/
 
 theorem v4_write_iff_walk (e : Exts4) (first : Nat) :
@@ -81,6 +141,45 @@ theorem v4_link_then_walk (e e' : Exts4) (n first' : Nat) (h : e.setNextHeaders 
     e'.write first' = ((match e'.auth with | some a => a.toBytes | none => []), .ok ()) := by
   rcases e with ⟨_ | a⟩ <;> simp [Exts4.setNextHeaders] at h <;> obtain ⟨rfl, rfl⟩ := h <;>
     simp [Exts4.nextHeader, Exts4.write]
+
+/-- v4: decoding what `write` emitted returns the struct, the walk result and the tail (an absent
+    auth header with first number 51 is excluded: the decoder would parse `tail` as a header). -/
+theorem v4_write_decode (e : Exts4) (hwf : e.WF) (first : Nat) (out : Bytes) (last : Nat) (tail : Bytes)
+    (hw : e.write first = (out, .ok ()))
+    (hn : e.nextHeader first = .ok last)
+    (hc : e.auth.isSome = true ∨ first ≠ AUTH) :
+    Exts4.fromSlice first (out ++ tail) = .ok (e, last, tail) := by
+  rcases e with ⟨_ | a⟩
+  · simp [Exts4.write] at hw
+    simp [Exts4.nextHeader] at hn
+    subst hw hn
+    simp at hc
+    simp [Exts4.fromSlice, Ne.symm hc]
+  · simp only [Exts4.write] at hw
+    split at hw
+    · rename_i h51
+      simp at hw
+      subst hw
+      simp [Exts4.nextHeader, h51.symm] at hn
+      obtain ⟨h1, h2, h3, h4⟩ := auth_roundtrip (ε := AuthSliceErr) a hwf tail
+      simp [Exts4.fromSlice, h51, h1, h2, h3, h4, hn]
+    · simp at hw
+
+/-- v4: a present auth header that is not referenced is the error `ExtNotReferenced(51)` of both
+    walkers, and that is the only error. -/
+theorem v4_inconsistent_is_error (e : Exts4) (first : Nat) :
+    (∀ a, e.auth = some a → first ≠ AUTH →
+      e.nextHeader first = .error (.err (.extNotReferenced AUTH)) ∧
+      e.write first = ([], .error (.err (.extNotReferenced AUTH)))) ∧
+    (∀ f, e.nextHeader first = .error f → f = .err (.extNotReferenced AUTH) ∧ e.auth.isSome = true ∧ first ≠ AUTH) := by
+  rcases e with ⟨_ | a⟩
+  · simp [Exts4.nextHeader]
+  · refine ⟨fun a' ha hf => ?_, fun f hf => ?_⟩
+    · simp [Exts4.nextHeader, Exts4.write, hf, Ne.symm hf]
+    · simp only [Exts4.nextHeader] at hf
+      split at hf
+      · simp at hf
+      · rename_i h; simp at hf; exact ⟨hf.symm, rfl, h⟩
 
 /-! ## ether type of the IP version -/
 
@@ -127,5 +226,10 @@ def sample : Exts :=
 example : sample.WF := by decide
 example : isIpv6ExtHeaderValue 17 = false := by decide
 example : (sample.setNextHeaders 17).2 = 0 := by decide
+example : isWalked 17 = false := by decide
+/-- an inconsistent struct (fragment header never referenced) for `inconsistent_is_error` (2). -/
+example : ({ Exts.empty with fragment := some ⟨17, 0, false, 1⟩ } : Exts).hdr .fragment = some ⟨.fragment, 17, [17, 0, 0, 0, 0, 0, 0, 1]⟩ := by
+  decide
+example : (Exts4.mk (some ⟨6, 1, 2, []⟩)).WF := by decide
 
 end EpModel.C12
